@@ -64,33 +64,34 @@ Proof. induction l as [|x r IH]; intros m; cbn [fold_left]; [reflexivity|]. now 
 Lemma bump_parent_ver m t p : ver (fst (bump_parent m t p)) = ver m.
 Proof. unfold bump_parent. destruct (descrs m p); reflexivity. Qed.
 
-Lemma process_item_ver cr up de mt e : ver (fst (process_item cr up de mt e)) = ver (fst mt).
+Lemma process_item_ver cr up de mtb e : ver (fst (fst (process_item cr up de mtb e))) = ver (fst (fst mtb)).
 Proof.
-  destruct mt as [m t]. unfold process_item. cbn [fst].
+  destruct mtb as [[m t] bumped]. unfold process_item. cbn [fst].
   destruct (snd e) as [d|]; destruct (descrs m (fst e)) as [o|]; cbn [fst]; try reflexivity.
   - (* create *)
-    match goal with |- context [let '(m2, t2) := ?X in _] => set (X0 := X) end.
-    assert (E : ver (fst X0) = ver m).
-    { subst X0. destruct (d_parent d) as [p|]; [|reflexivity].
-      destruct (memz p cr || memz p up); [reflexivity|]. now rewrite bump_parent_ver. }
-    destruct X0 as [m2 t2]. cbn [fst] in *. exact E.
+    destruct (d_parent d) as [p|]; [|reflexivity].
+    destruct (memz p cr || memz p up || memz p bumped); [reflexivity|].
+    pose proof (bump_parent_ver (set_descr m (fst e) (Some d)) t p) as B.
+    destruct (bump_parent (set_descr m (fst e) (Some d)) t p) as [mb tb]. cbn [fst] in *. exact B.
   - (* delete *)
     destruct (d_parent o) as [p|]; [|cbn [fst]; now rewrite fold_rm_one_ver].
-    destruct (memz p de || memz p up); cbn [fst]; [now rewrite fold_rm_one_ver|].
-    rewrite bump_parent_ver. now rewrite fold_rm_one_ver.
+    destruct (memz p de || memz p up || memz p bumped); cbn [fst]; [now rewrite fold_rm_one_ver|].
+    pose proof (bump_parent_ver (fold_left rm_one (subtree m (fst e)) m) t p) as B.
+    destruct (bump_parent (fold_left rm_one (subtree m (fst e)) m) t p) as [mb tb]. cbn [fst] in *.
+    rewrite B. now rewrite fold_rm_one_ver.
 Qed.
 
-Lemma fold_process_ver cr up de l : forall mt,
-  ver (fst (fold_left (process_item cr up de) l mt)) = ver (fst mt).
-Proof. induction l as [|e r IH]; intros mt; cbn [fold_left]; [reflexivity|]. now rewrite IH, process_item_ver. Qed.
+Lemma fold_process_ver cr up de l : forall mtb,
+  ver (fst (fst (fold_left (process_item cr up de) l mtb))) = ver (fst (fst mtb)).
+Proof. induction l as [|e r IH]; intros mtb; cbn [fold_left]; [reflexivity|]. now rewrite IH, process_item_ver. Qed.
 
 Lemma commit_descr_ver m t :
   ver (commit_descr m t) = match t_d t with [] => ver m | _ => ver m + 1 end.
 Proof.
   unfold commit_descr. destruct (t_d t) as [|e r] eqn:E; [reflexivity|].
-  match goal with |- context [fold_left ?f ?l ?a] => destruct (fold_left f l a) as [m1 t1] eqn:F end.
+  match goal with |- context [fold_left ?f ?l ?a] => destruct (fold_left f l a) as [[m1 t1] b1] eqn:F end.
   rewrite handle_state_updates_ver.
-  change m1 with (fst (m1, t1)). rewrite <- F, fold_process_ver. reflexivity.
+  change m1 with (fst (fst (m1, t1, b1))). rewrite <- F, fold_process_ver. reflexivity.
 Qed.
 
 Lemma commit_descr_empty m t : t_d t = [] -> commit_descr m t = m.
